@@ -227,7 +227,7 @@ func (env *Env) ident(name string) TV {
 		return TV{nilVal{}, nil}
 	case "idperm":
 		c := env.ex.ctx.Const("idperm", arrSort(SInt, SInt))
-		env.ex.ctx.Axiom("(forall ((i Int)) (= (select idperm i) i))")
+		env.ex.ctx.AxiomKey("idperm", "(forall ((i Int)) (= (select idperm i) i))")
 		return TV{Sc{c}, nil}
 	case "emptyset":
 		return TV{Sc{constArray(arrSort(SInt, SBool), tFalse)}, nil}
